@@ -137,7 +137,7 @@ theorem updateLoop_single (now : Int) (spec document nowV : Val) (l : List (Val 
           | error e => left; rfl
           | ok new =>
             dsimp only
-            by_cases hb : (if c.isOD key then pyEqOrdered new cur else pyEq new cur) = true
+            by_cases hb : pyEq new cur = true
             · rw [if_pos hb]
               cases hu : ensureUniques now (c.setDoc key new) new with
               | error e => left; rfl
